@@ -169,6 +169,9 @@ type FV struct {
 	extra    []string
 	used     map[string]bool
 	paramFirst []int
+	divmemo  map[[2]int][2]*Term
+	divlist  []divRec
+	entryRefAxioms bool
 	side     []*Term // type-invariant facts collected while evaluating specifications
 }
 
@@ -1004,8 +1007,17 @@ func tdiv(x, y *Term) *Term {
 // constants with their defining (nonlinear) equation plus linear consequences that spare the solver
 // nonlinear reasoning in the common cases (small quotients).
 func (fv *FV) divmod(st *State, x, y *Term) (q, r *Term) {
-	q = fv.fresh("quo", IntSort)
-	r = fv.fresh("rem", IntSort)
+	key := [2]int{x.id, y.id}
+	if fv.divmemo == nil {
+		fv.divmemo = map[[2]int][2]*Term{}
+	}
+	if m, ok := fv.divmemo[key]; ok {
+		q, r = m[0], m[1]
+	} else {
+		q = fv.fresh("quo", IntSort)
+		r = fv.fresh("rem", IntSort)
+		fv.divmemo[key] = [2]*Term{q, r}
+	}
 	zero := IntLit(0)
 	absy := Ite(Ge(y, zero), y, Neg(y))
 	st.assume(Eq(x, Add(Mul(y, q), r)))
@@ -1016,8 +1028,35 @@ func (fv *FV) divmod(st *State, x, y *Term) (q, r *Term) {
 	st.assume(Implies(And(pos, Lt(x, y)), And(Eq(q, zero), Eq(r, x))))
 	st.assume(Implies(And(pos, Le(y, x), Lt(x, Add(y, y))), And(Eq(q, IntLit(1)), Eq(r, Sub(x, y)))))
 	st.assume(Implies(pos, And(Le(zero, q), Le(q, x))))
+	// successor lemma against earlier divisions by the same divisor (sound arithmetic fact):
+	// x2 == x1 + 1  ==>  (r1 + 1 < y ? (q2, r2) == (q1, r1 + 1) : (q2, r2) == (q1 + 1, 0))
+	for _, p := range fv.divlist {
+		if p.y != y || p.x == x {
+			continue
+		}
+		succ := func(x1, q1, r1, x2, q2, r2 *Term) *Term {
+			return Implies(And(Ge(x1, zero), Gt(y, zero), Eq(x2, Add(x1, IntLit(1)))),
+				And(Implies(Lt(Add(r1, IntLit(1)), y), And(Eq(q2, q1), Eq(r2, Add(r1, IntLit(1))))),
+					Implies(Eq(Add(r1, IntLit(1)), y), And(Eq(q2, Add(q1, IntLit(1))), Eq(r2, zero)))))
+		}
+		st.assume(succ(p.x, p.q, p.r, x, q, r))
+		st.assume(succ(x, q, r, p.x, p.q, p.r))
+	}
+	if _, seen := fv.divmemo[key]; seen {
+		dup := false
+		for _, p := range fv.divlist {
+			if p.x == x && p.y == y {
+				dup = true
+			}
+		}
+		if !dup {
+			fv.divlist = append(fv.divlist, divRec{x, y, q, r})
+		}
+	}
 	return q, r
 }
+
+type divRec struct{ x, y, q, r *Term }
 
 func (fv *FV) pow2(k *Term) *Term {
 	if k.Op == "int" && k.Int.IsInt64() && k.Int.Int64() >= 0 && k.Int.Int64() < 200 {
